@@ -87,6 +87,12 @@ Section C01.
                   ec_verify r (k_id k) msg rr ss = Ok true.
   Proof. exact (ec_accept_inv mac pk_verify ec_verify). Qed.
 
+  (* an ES* name never verifies with an EC key on another curve (whatever the primitive says) *)
+  Theorem c01_ec_curve_gate : forall r k msg sig,
+    ja_family r = "EC"%string -> alg_verify mac pk_verify ec_verify r k msg sig = Ok true ->
+    k_crv k = ja_curve r.
+  Proof. exact (ec_curve_gate mac pk_verify ec_verify). Qed.
+
   Theorem c01_hmac_accept : forall r k msg sig,
     ja_family r = "HMAC"%string -> alg_verify mac pk_verify ec_verify r k msg sig = Ok true ->
     mac (ja_hash r) (k_id k) msg = Ok sig.
@@ -271,6 +277,7 @@ Print Assumptions c01_none_never_verifies.
 Print Assumptions c01_verified_not_none.
 Print Assumptions c01_ec_length.
 Print Assumptions c01_ec_accept.
+Print Assumptions c01_ec_curve_gate.
 Print Assumptions c01_hmac_accept.
 Print Assumptions c01_7797_sound.
 Print Assumptions c01_7797_payload_is_verified.
